@@ -85,7 +85,9 @@ func WatchDiskSpace(path string, interval time.Duration) {
 		case <-ticker.C:
 			err := CheckDiskUsage(path)
 
-			if err != nil && !paused {
+			// The pause is shared with the other controllers (WARC queue watcher, operator): if one of
+			// them resumed the pipeline while the disk is still too full, pause it again
+			if err != nil && (!paused || !pause.IsPaused()) {
 				logger.Warn("Low disk space, pausing the pipeline", "err", err.Error())
 				pause.Pause("Not enough disk space!!!")
 				paused = true
